@@ -238,7 +238,9 @@ func frameInstances(c *Ctx, asserts []*Term) []*Term {
 			other := c.App(c.Funcs[app.Name], args...)
 			sk := c.Fresh("sk$frame", IdxSort)
 			differ := c.And(c.BVCmp("bvsle", q, sk), c.BVCmp("bvslt", sk, c.BVBin("bvadd", q, c.App(ext, B, q))), c.Distinct(c.Select(B, sk), c.Select(B2, sk)))
-			out = append(out, c.Or(differ, c.Eq(app, other)))
+			// Only when the extent at (B,q) is positive: an extent of 0 means "nothing well-formed
+			// starts here", and then the value over another array is not determined by B at all.
+			out = append(out, c.Or(c.BVCmp("bvsle", c.App(ext, B, q), c.BVI(0, 64)), differ, c.Eq(app, other)))
 		}
 	}
 	return out
